@@ -31,6 +31,9 @@ pub const PROBES: &[&str] = &[
     "interval_collapsed_by_gap",
     "window_shorter_than_fold",
     "window_straddles_jump",
+    "window_ends_exactly_at_jump",
+    "window_zero_length",
+    "observer_zone_jumps_too",
     "next_change_none",
     "next_change_across_jump",
     "observer_zone_differs",
@@ -148,6 +151,11 @@ where
     }
     if ctx_tz != obs_tz {
         w.probes.hit("observer_zone_differs");
+        if let (Some(j), Some(o)) = (&w.jump, ZoneSpec::parse(&sc.observer)) {
+            if !o.jumps_between(j.at - 7200, j.at + 7200).is_empty() {
+                w.probes.hit("observer_zone_jumps_too");
+            }
+        }
     }
     if let Some(j) = &w.jump {
         let (a, _) = j.window();
@@ -185,7 +193,16 @@ where
                     }
                 }
             }
-            Step::Observe { window, take } => {
+            Step::Observe { .. } | Step::ObserveUntilJump { .. } => {
+                let (window, take) = match step {
+                    Step::Observe { window, take } => (*window, *take),
+                    Step::ObserveUntilJump { delta, take } => {
+                        let end = w.jump.map(|j| j.at + *delta);
+                        (end.filter(|e| *e > now.0).map(|e| e - now.0).unwrap_or(60), *take)
+                    }
+                    _ => unreachable!(),
+                };
+                let (window, take) = (&window, &take);
                 let r = simcore::catch(|| observe(&mut w, &oh_z, &oh_n, &ctx_tz, &obs_tz, now, *window, *take));
                 let r = match r {
                     Ok(r) => r,
@@ -286,6 +303,13 @@ where
         if u < j.at && u + window > j.at {
             w.probes.hit("window_straddles_jump");
             hit = true;
+        }
+        if u < j.at && u + window == j.at {
+            w.probes.hit("window_ends_exactly_at_jump");
+            hit = true;
+        }
+        if window == 0 {
+            w.probes.hit("window_zero_length");
         }
     }
 
